@@ -16,6 +16,9 @@
 (*   url       : [abs |-> FALSE, path |-> <<"b","a","">>]            ("/b/a/")           *)
 (*             | [abs |-> TRUE, scheme, host |-> <<"api","example","com">>,              *)
 (*                port |-> <<>> | <<"8443">>, path]                                      *)
+(*               (, tail |-> "?" | "?a=1" | "?a=1#top" | "#top"  -- what follows the     *)
+(*                 path in the request URL: query marker, query, fragment; not part of   *)
+(*                 the path, so the contract never looks at it)                          *)
 (*   request   : [m |-> "GET", u |-> url]                                                *)
 (*   observation (what FindRoute did):                                                   *)
 (*        [k |-> "route", path |-> "/a/{x}", m, op, params |-> <<[n |-> "x", v |-> "v"]>>*)
@@ -48,6 +51,7 @@ Cs(s) ==
    CASE s = "ab" -> <<"a", "b">>
      [] s = "v1" -> <<"v", "1">>
      [] s = "v2" -> <<"v", "2">>
+     [] s = "a%20b" -> <<"a", "%", "2", "0", "b">>
      [] s = "v10" -> <<"v", "1", "0">>
      [] s = "v1x" -> <<"v", "1", "x">>
      [] s = "v1beta" -> <<"v", "1", "b", "e", "t", "a">>
@@ -62,7 +66,7 @@ Cs(s) ==
      [] s = "report." -> <<"r", "e", "p", "o", "r", "t", ".">>
      [] s = "report.pdf" -> <<"r", "e", "p", "o", "r", "t", ".", "p", "d", "f">>
      [] s = "report.txt" -> <<"r", "e", "p", "o", "r", "t", ".", "t", "x", "t">>
-DictStrings == {"ab", "v1", "v2", "v10", "v1x", "v1beta", "vv", "a-", "-b", "a-b", "v1-b", "a-b-v", "files", "report", "report.",
+DictStrings == {"ab", "a%20b", "v1", "v2", "v10", "v1x", "v1beta", "vv", "a-", "-b", "a-b", "v1-b", "a-b-v", "files", "report", "report.",
                 "report.pdf", "report.txt"}
 RECURSIVE JoinChars(_)
 JoinChars(cs) == IF Len(cs) = 0 THEN "" ELSE cs[1] \o JoinChars(SubSeq(cs, 2, Len(cs)))
@@ -87,10 +91,21 @@ ServerURL(s) ==
     ELSE "")
    \o PathStr(s.base) \o (IF s.slash THEN "/" ELSE "")
 
-URLStr(u) ==
+UTail(u) == IF "tail" \in DOMAIN u THEN u.tail ELSE ""
+BareURLStr(u) ==
    (IF u.abs THEN u.scheme \o "://" \o JoinDot(u.host) \o (IF Len(u.port) = 0 THEN "" ELSE ":" \o u.port[1])
     ELSE "")
    \o PathStr(u.path)
+URLStr(u) == BareURLStr(u) \o UTail(u)
+
+(* Percent-encoding.  Segments are carried in their wire (encoded) form; the few encoded   *)
+(* strings of the universe are decoded by table (any other string decodes to itself).     *)
+(* An encoded slash is data, not a separator: "a%2Fb" is ONE segment.                      *)
+Dec(x) == CASE x = "x%20y" -> "x y" [] x = "a%20b" -> "a b" [] x = "a%2Fb" -> "a/b"
+            [] x = "my%20api" -> "my api" [] x = "my%2Fapi" -> "my/api" [] OTHER -> x
+IsEnc(x) == Dec(x) # x
+(* what net/url's decoded Path makes of a wire segment when it is split at "/" again *)
+DecSegs(x) == CASE x = "a%2Fb" -> <<"a", "b">> [] x = "my%2Fapi" -> <<"my", "api">> [] OTHER -> <<Dec(x)>>
 
 -----------------------------------------------------------------------------
 (* servers *)
@@ -169,7 +184,7 @@ Subst(parts, ps) ==       \* the text of a mixed segment under the parameters (e
         \o Subst(SubSeq(parts, 2, Len(parts)), ps)
 SegFillOK(seg, ps, x) ==
    IF IsLit(seg) THEN x = seg.l
-   ELSE IF IsVar(seg) THEN ParamVals(ps, seg.v) = {x}
+   ELSE IF IsVar(seg) THEN ParamVals(ps, seg.v) = {x} \/ ParamVals(ps, seg.v) = {Dec(x)}   \* wire or decoded value
    ELSE /\ \A n \in SegVars(seg) : Cardinality(ParamVals(ps, n)) = 1
         /\ Subst(seg.mx, ps) = x
 FillOK(t, ps, r) ==
@@ -305,7 +320,7 @@ Satisfiable(doc, req) == \E o \in Candidates(doc, req) : Failed(doc, req, o) = {
 (* server, one mux route; FindRoute returns the first route that matches, and -- in the  *)
 (* pinned code -- returns "method not allowed" as soon as a route matches in everything  *)
 (* but the method (keepLooking = FALSE; TRUE is the repaired scan).                      *)
-Alphabet == <<"-", ".", "/", "0", "1", "2", "a", "b", "c", "d", "e", "f", "g", "h", "i", "j", "k", "l", "m", "n", "o",
+Alphabet == <<"%", "-", ".", "/", "0", "1", "2", "a", "b", "c", "d", "e", "f", "g", "h", "i", "j", "k", "l", "m", "n", "o",
               "p", "q", "r", "s", "t", "u", "v", "w", "x", "y", "z", "{", "}">>
 CharRank(c) == IF \E i \in 1..Len(Alphabet) : Alphabet[i] = c
                THEN CHOOSE i \in 1..Len(Alphabet) : Alphabet[i] = c ELSE 99
@@ -403,13 +418,28 @@ LPick(doc, cands, segs, i, strict) ==
            IN IF r1 # 0 THEN r1
               ELSE IF vars = {} THEN 0 ELSE LPick(doc, vars, segs, i + 1, strict)
 
-LegacyObs(doc, req, nonEmptyVars, keepSlash, methodGuard) ==
+(* What FindRoute matches is not the wire path (wirePath = FALSE, the code as it is):     *)
+(*  - with declared servers it is the URL string cut at the first "?" only, so a fragment *)
+(*    that follows the path directly stays glued to the last segment;                     *)
+(*  - without servers it is net/url's decoded Path, split at "/" again: encoded slashes   *)
+(*    become separators, literals are compared with decoded text, values come back        *)
+(*    decoded.                                                                            *)
+RECURSIVE DecPath(_)
+DecPath(r) == IF Len(r) = 0 THEN <<>> ELSE DecSegs(r[1]) \o DecPath(SubSeq(r, 2, Len(r)))
+FragGlued(u) == UTail(u) = "#top"
+LegacySees(sv, u, r, wirePath) ==
+   IF wirePath THEN r
+   ELSE IF IsNone(sv) THEN DecPath(r)
+   ELSE IF FragGlued(u) /\ Len(r) > 0 THEN [r EXCEPT ![Len(r)] = r[Len(r)] \o "#top"]
+   ELSE r
+
+LegacyObs(doc, req, nonEmptyVars, keepSlash, methodGuard, wirePath) ==
    LET u == req.u
        S == ServersOf(doc)
        hits == {i \in 1..Len(S) : IF IsNone(S[i]) THEN TRUE ELSE LegacySrvMatch(S[i], u)}
    IN IF hits = {} THEN NotFound
       ELSE LET i == CHOOSE x \in hits : \A y \in hits : x <= y
-               r == Residual(S[i], u)
+               r == LegacySees(S[i], u, Residual(S[i], u), wirePath)
                segs == IF keepSlash THEN r ELSE StripSlashes(r)
                cands == {t \in 1..Len(doc.templates) : Declared(doc.templates[t], req.m)}
                pick == LPick(doc, cands, segs, 0, nonEmptyVars)
@@ -422,7 +452,7 @@ LegacyObs(doc, req, nonEmptyVars, keepSlash, methodGuard) ==
 (* the models of the code as it is now: the switches of repaired defects are on                 *)
 (*   legacy methodGuard (F-C09-3, unknown-method panic) and mux localServers (F-C09-5, path-level *)
 (*   servers leak) were repaired by fix: commits in /repo                                         *)
-CurLegacyObs(doc, req) == LegacyObs(doc, req, FALSE, FALSE, TRUE)
+CurLegacyObs(doc, req) == LegacyObs(doc, req, FALSE, FALSE, TRUE, FALSE)
 CurMuxObs(doc, req) == MuxObs(doc, req, FALSE, TRUE)
 
 (* what of an observation the L2 models predict (the rest is left to L1) *)
